@@ -213,7 +213,7 @@ Definition adj (a b : item) : bool :=
     | _ => false
     end
   else (starts_operand b || (match a, b with ICallOpen, IClose => true | _, _ => false end))
-       && (if is_update_pre a then match b with IId _ | IOpen => true | _ => false end else true).
+       && (if is_update_pre a then match b with IId _ | IOpen | INum _ | INew => true | _ => false end else true).
 
 Fixpoint chain (prev : option item) (l : list item) : bool :=
   match l with
